@@ -104,6 +104,10 @@ func (w *World) lemmaInstance(use *SExpr, env *SpecEnv) *Term {
 		names[p.Name] = tv(coerceTo(v, ps), gt)
 	}
 	lenv := &SpecEnv{names: names, pkg: lm.Pkg, w: w, heapOf: env.heapOf}
+	if lm.TwoState && env.old != nil {
+		// old(e) inside a two-state lemma: e in the heap that `old` denotes at the use site (names stay the lemma's)
+		lenv.old = &SpecEnv{names: names, pkg: lm.Pkg, w: w, heapOf: env.old.heapOf}
+	}
 	var req, ens []*Term
 	for _, c := range lm.Requires {
 		req = append(req, w.trSpec(c.E, lenv).T)
@@ -306,6 +310,16 @@ func (w *World) verifyFunc(fi *FuncInfo, fc *FuncContract) (ex *Exec, err error)
 	}
 	if len(fl.breaks)+len(fl.continues) > 0 {
 		return ex, fmt.Errorf("break/continue outside loop")
+	}
+	for n := range fc.Calls {
+		if n >= ex.callN {
+			return ex, fmt.Errorf("contract mentions call %d but the function has only %d contract-governed calls (ordinals are shown in the obligation names)", n, ex.callN)
+		}
+	}
+	for n := range fc.Loops {
+		if n >= ex.loopN {
+			return ex, fmt.Errorf("contract mentions loop %d but the function has only %d loops", n, ex.loopN)
+		}
 	}
 	return ex, nil
 }
@@ -1154,6 +1168,17 @@ func (ex *Exec) applyContract(st *State, cfi *FuncInfo, cfc *FuncContract, recv 
 		gbv = append(gbv, c)
 		post[g.Name] = tv(c, gt)
 	}
+	// witness names ($s, $t ..) of the callee's ensures are existential for the caller: fresh constants per call
+	for _, c := range cfc.Ensures {
+		for _, nm := range dollarNames(c.Src) {
+			if nm == "$alloc" || nm == "$oldalloc" {
+				continue
+			}
+			if _, ok := post[nm]; !ok {
+				post[nm] = tv(ex.fresh("wit_"+strings.TrimPrefix(nm, "$"), SReal), types.Typ[types.Float64])
+			}
+		}
+	}
 	penv := &SpecEnv{names: post, pkg: calleePkg, w: ex.w, heapOf: heapOfState(st), old: &SpecEnv{names: mergeNames(names, oldNames), pkg: calleePkg, w: ex.w, heapOf: preHeapOf}}
 	// pointer / object results of an allocating callee are fresh or pre-existing objects
 	for _, rv := range rvals {
@@ -1306,6 +1331,21 @@ func (ex *Exec) callForwardIter(st *State, cn int, cfi *FuncInfo, cfc *FuncContr
 		}
 		d := ex.w.trSpec(ip.Dom, env.with(map[string]*Val{ip.IdxVar: jv})).T
 		ex.oblige(pst, "proto", fmt.Sprintf("proto.call%d.domfresh", cn), tImp(d, tNot(tSelect(seen, shiftIdx(j)))), where+": callee's domain has not been reported yet")
+		// the callee reports, for its index j, the arguments our own protocol promises for index j+shift
+		if mine := ex.fc.Iter; mine != nil {
+			m := tAnd(d, ex.w.trSpec(ip.Match, env.with(map[string]*Val{ip.IdxVar: jv})).T)
+			myEnv := ex.specEnv(pst, hx).with(map[string]*Val{mine.IdxVar: tv(shiftIdx(j), types.Typ[types.Int])})
+			for k := range ip.Args {
+				if k >= len(mine.Args) {
+					break
+				}
+				a := ex.w.trSpec(ip.Args[k], env.with(map[string]*Val{ip.IdxVar: jv}))
+				b := ex.w.trSpec(mine.Args[k], myEnv)
+				if a.T.S.Eq(b.T.S) {
+					ex.oblige(pst, "proto", fmt.Sprintf("proto.call%d.fwdarg%d", cn, k), tImp(m, tEq(a.T, b.T)), where+": forwarded callback argument agrees with this function's protocol")
+				}
+			}
+		}
 	}
 	seen1 := ex.fresh("seen", seen.S)
 	stopped1 := ex.fresh("stopped", SBool)
